@@ -199,7 +199,7 @@ def run(ctx):
 
     def class_of(f):
         sig = (f.get("detail") or {}).get("signature") or {}
-        return known_class.get(sig.get("class")) if f["key"]["kind"] == "flash" else None
+        return known_class.get(sig.get("class"))
 
     new_fail = []
     for f in sup["failures"]:
@@ -228,10 +228,12 @@ def run(ctx):
     for kind, fl in sorted(by_kind.items()):
         f0 = fl[0]
         where = ("case %s" % f0["hetero_point"]) if "hetero_point" in f0 else "at T=%.6f K, x=%.6f" % (f0["key"]["T"], f0["key"]["x"])
+        if "lle_point" in f0:
+            where += " (liquid-liquid, replay --lle-point %s)" % f0["lle_point"]
         V.violation(ctx, "%s of %s/%s %s: %s" % (kind, f0["key"]["pair"][0], f0["key"]["pair"][1], where, f0["what"]),
                     {"broken": "public-API recomputation of the equilibrium conditions at returned results / success inside the stated window",
                      "kind": kind, "failing_inputs": fl[:10], "count": len(fl),
-                     **({"hetero_point": f0["hetero_point"]} if "hetero_point" in f0 else
+                     **({"hetero_point": f0["hetero_point"]} if "hetero_point" in f0 else {"lle_point": f0["lle_point"]} if "lle_point" in f0 else
                         {"point": "%s|%s|%r|%r|%r|%r" % (f0["key"]["pair"][0], f0["key"]["pair"][1], f0["key"]["T"], f0["key"]["x"], f0["s"], f0["ntot"])}),
                      "tolerances": sup["tolerances"]}, found_input=True)
     any_support_failure = bool(new_fail)
@@ -343,6 +345,15 @@ def run(ctx):
 def replay(rp):
     """re-run the failing input of a replay on the real implementation"""
     print(json.dumps({k: rp[k] for k in rp if k not in ("failing_inputs", "mismatches", "files", "cases")}, indent=1)[:3000])
+    lp = rp.get("lle_point")
+    if lp:
+        exe = os.path.join(V.TARGET, "release", "c05")
+        out_dir = os.path.join(V.GEN, "C05_replay")
+        os.makedirs(out_dir, exist_ok=True)
+        rc, out, _ = V.sh([exe, "--out", out_dir, "--lle-point", lp], cwd=V.VERIF)
+        r = json.load(open(os.path.join(out_dir, "impl.json")))
+        print(json.dumps(r, indent=1)[:6000])
+        return 1 if r["failures"] else 0
     hp = rp.get("hetero_point")
     if hp:
         exe = os.path.join(V.TARGET, "release", "c05")
